@@ -289,6 +289,10 @@ Theorem C15_capstone_empty_unlabeled :
 Proof. exact semi_empty_capstone. Qed.
 
 (* ---------- non-vacuity: labeled rows 0, 1, 3 (classes 0 0 1), unlabeled rows 1/2, 5/2, manhattan ---------- *)
+(* conversion hint only (no logical content): never unfold the training run while the kernel compares the two
+   spellings of the statement (without it this file takes 8 minutes instead of 2 seconds) *)
+Local Strategy opaque [semi_fit find_prototypes predict_one metric_value].
+
 
 Theorem C15_capstone_example_premises :
   let feat p := nth p [[0]; [1]; [3]; [1/2]; [5/2]] [] in
